@@ -101,6 +101,23 @@ def export_job(interp, c, case):
     doc, sm = M.generate_sbml_model(stochastic_model=stochastic)
     tag = "%s %s %s export" % (ptype, {k: v for k, v in spec.items() if k != "products"}, "stochastic" if stochastic else "deterministic")
     rp = dict(ptype=ptype, spec=spec, stochastic=stochastic)
+    # the file written by write_sbml_model with the same options carries the same kinetic law
+    import os
+    import tempfile
+    fd, path = tempfile.mkstemp(suffix=".xml")
+    os.close(fd)
+    try:
+        M.write_sbml_model(path, stochastic_model=stochastic)
+        fdoc = libsbml.readSBMLFromFile(path)
+    finally:
+        os.unlink(path)
+    law_g = libsbml.formulaToL3String(sm.getReaction(0).getKineticLaw().getMath())
+    law_f = libsbml.formulaToL3String(fdoc.getModel().getReaction(0).getKineticLaw().getMath())
+    ok = c.prove(law_f == law_g, "%s: write_sbml_model writes the kinetic law of generate_sbml_model with the same options (%s / %s)" % (tag, law_f, law_g),
+                 info={"sig": "write_sbml_model law differs from generate_sbml_model (%s)" % ("stochastic" if stochastic else "deterministic"),
+                       "what": "%s: file law '%s', generated law '%s'" % (tag, law_f, law_g)})
+    if ok is False:
+        c.failures[-1]["replay"] = dict(rp, values={}, via="file")
     # symbolic parameter values, shared by the model and by the document's global parameters
     psym = {}
     for name, idx in M.get_params2index().items():
